@@ -41,7 +41,8 @@ CheckDoc(e) ==
   ELSE IF ~SameTree(e.dec, r.g) THEN "document-decoded-differently"
   \* decoding into a concrete Go type succeeds iff the JSON type matches (the adapters validate)
   ELSE IF \E i \in 1..7 : e.into[i] /\ e.typenames[i] # e.doc.type THEN "concrete-type-accepts-another-type"
-  ELSE IF e.valid /\ \E i \in 1..7 : ~e.into[i] /\ e.typenames[i] = e.doc.type THEN "concrete-type-rejects-its-own-type"
+  \* (valid as far as the library's own Validate says, or known to be valid by the specification: AbstractGeom!KnownValid)
+  ELSE IF (e.valid \/ KnownValid(r.g)) /\ \E i \in 1..7 : ~e.into[i] /\ e.typenames[i] = e.doc.type THEN "concrete-type-rejects-its-own-type"
   ELSE "ok"
 
 Check(e) ==
